@@ -14,7 +14,8 @@
   marker-free and unique) and contain no layer list directly inside a layer list (`NoNest`);
   both hold for everything decoded from a YAML document whose keys carry at most one `=`/`~`
   marker (`C07.ofYaml_wf`, `C07.ofYaml_noNest`).  The two panics of the *decoder*
-  (`yamlTagged`, `yamlConstDup`) are reachable; witnesses below.
+  (`yamlTagged`, `yamlConstDup`) were reachable before the repair of D5/D6; the fallible decoder
+  now returns ordinary errors (examples below).
 
   Helper lemmas and the 13-function induction (`NoPanicInv`) are in `Lemmas/TextL`.
 -/
@@ -177,16 +178,17 @@ example : TextL.errOf (renderParamsF 30
     ⟨[(.str "a".toList, .vl [.vl [.str "x".toList]]), (.str "b".toList, .str "${a:k}".toList)], [], []⟩) =
     some (.panic .resolveNewvStrVl) := by decide +kernel
 
-/-- Decoder panic 1: a tagged YAML value hits `todo!("Tagged YAML values")`. -/
-example : Value.ofYaml (.tagged "!x".toList (.str "v".toList)) = .error (.panic .yamlTagged) := by rfl
+/-- A tagged YAML value is an ordinary error of the fallible decoder (it was a `todo!()` panic
+before the repair of D5). -/
+example : Value.ofYaml (.tagged "!x".toList (.str "v".toList)) = .error .yamlTaggedValue := by rfl
 
 example : Value.ofYaml (.map [(.str "k".toList, .tagged "!x".toList .null)]) =
-    .error (.panic .yamlTagged) := by rfl
+    .error .yamlTaggedValue := by rfl
 
-/-- Decoder panic 2: `{=k: 1, k: 2}` — inserting over a constant key fails and the decoder
-`unwrap()`s the error. -/
+/-- `{=k: 1, k: 2}` in one mapping is an ordinary constant-key error of the fallible decoder (it
+was an `unwrap()` panic before the repair of D6). -/
 example : Value.ofYaml (.map [(.str "=k".toList, .num (.int 1)), (.str "k".toList, .num (.int 2))]) =
-    .error (.panic .yamlConstDup) := by rfl
+    .error (.constKey (.str "k".toList)) := by rfl
 
 /-! ### Non-vacuity -/
 
